@@ -437,6 +437,17 @@ with torch.no_grad():
             got = h.compute_hedge(d)
             ref = reference(h)
             if got.shape != ref.shape or not torch.allclose(got, ref, atol=1e-6): bad.append((nm, "round %d" % rnd, float((got - ref).abs().max()) if got.shape == ref.shape else str(tuple(got.shape))))
+# a bound FeatureList evaluated at a step, the derivative re-simulated, evaluated at a LATER step (never passing step 0 again)
+from pfhedge.features import FeatureList
+fl = FeatureList(["log_moneyness", "time_to_maturity"]).of(d)
+fl.get(2)
+d.simulate(n_paths=5)
+fresh = FeatureList(["log_moneyness", "time_to_maturity"]).of(d)
+for i in (3, 1):
+    if not torch.allclose(fl.get(i), fresh.get(i), atol=1e-7): bad.append(("FeatureList", "step %d after re-simulation differs from a fresh list" % i))
+d2 = EuropeanOption(BrownianStock(sigma=0.2, dt=0.02), strike=0.9, maturity=0.12); d2.simulate(n_paths=5)
+re = fl.of(d2); fresh2 = FeatureList(["log_moneyness", "time_to_maturity"]).of(d2)
+if not torch.allclose(re.get(3), fresh2.get(3), atol=1e-7): bad.append(("FeatureList", "re-bound to another derivative differs from a fresh list"))
 result = {"got": [str(b) for b in bad], "ref": []}
 '''
 
